@@ -1,7 +1,7 @@
 (* Lemmas about _parse / the handlers of the active-surface line (Model/AslLine.v): addressing
    (C11), lifted from the message level to the byte level through the framing lemmas. *)
-From DS Require Import Base.Prelude Base.Bits Model.Utils Model.AslLine Proofs.UtilsProofs
-  Proofs.AslFrameProofs.
+From DS Require Import Base.Prelude Base.Bits Model.Utils Model.AslLine Proofs.UtilsProofs.
+From DS Require Import Proofs.AslFrameProofs.
 
 (* ---------- list helpers ---------- *)
 
